@@ -5,6 +5,7 @@ package main
 
 import (
 	"fmt"
+	"regexp"
 	"go/ast"
 	"go/parser"
 	"go/printer"
@@ -44,6 +45,8 @@ func relFuncName(fn *ssa.Function) string {
 	return s
 }
 
+var ghostIfaceRe = regexp.MustCompile(`ghostIface\("([^"]+)"`)
+
 type importerFunc func(path string) (*types.Package, error)
 
 func (f importerFunc) Import(path string) (*types.Package, error) { return f(path) }
@@ -62,6 +65,9 @@ func Load(repoDir, verifDir string) (*Loaded, error) {
 			}
 			name := filepath.Join(repoDir, "zz_verif_"+sub+"_"+filepath.Base(m))
 			overlay[name] = b
+			for _, mm := range ghostIfaceRe.FindAllStringSubmatch(string(b), -1) {
+				ifaceGhosts[mm[1]] = true
+			}
 			specFiles[name] = true
 		}
 	}
@@ -328,10 +334,11 @@ func findFuncSite(root *packages.Package, name string) (*funcSite, error) {
 
 func lookupTypeByShortName(root *packages.Package, tn string) types.Type {
 	if i := strings.Index(tn, "."); i >= 0 {
+		i = strings.LastIndex(tn, ".")
 		pn, n := tn[:i], tn[i+1:]
 		var found types.Type
 		packages.Visit([]*packages.Package{root}, nil, func(p *packages.Package) {
-			if found == nil && p.Types != nil && p.Types.Name() == pn {
+			if found == nil && p.Types != nil && (p.Types.Name() == pn || p.Types.Path() == pn) {
 				if o := p.Types.Scope().Lookup(n); o != nil {
 					found = o.Type()
 				}
@@ -350,7 +357,7 @@ func lookupTypeByShortName(root *packages.Package, tn string) types.Type {
 
 // findExtSite: "pkg.Func" or "pkg.Func/DynType" or "(*pkg.T).Method"
 func findExtSite(root *packages.Package, name string) (*funcSite, error) {
-	if i := strings.Index(name, "/"); i >= 0 {
+	if i := strings.Index(name, "@"); i >= 0 {
 		name = name[:i]
 	}
 	var sig *types.Signature
@@ -816,6 +823,19 @@ func generateClauses(L *Loaded, root *packages.Package, cf *ContractFile) (strin
 			}
 			fmt.Fprintf(&g.b, ") bool {\n\treturn %s\n}\n\n", cl.Expr)
 		}
+	}
+	var tinames []string
+	for tn := range cf.TypeInvs {
+		tinames = append(tinames, tn)
+	}
+	sort.Strings(tinames)
+	for _, tn := range tinames {
+		cl := cf.TypeInvs[tn]
+		n++
+		cl.GoName = fmt.Sprintf("verif_cl_%d", n)
+		cl.Params = []ClauseParam{{Name: "self", Kind: "name"}}
+		fmt.Fprintf(&g.b, "// clause typeinv %s (verif_contracts.go:%d): %s\n", tn, cl.Line, cl.Src)
+		fmt.Fprintf(&g.b, "func %s(self *%s) bool {\n\treturn %s\n}\n\n", cl.GoName, tn, cl.Expr)
 	}
 	for _, cl := range append(append([]*Clause{}, cf.Globals...), cf.Axioms...) {
 		n++
